@@ -887,6 +887,9 @@ def mutate(rng, b, per_kind=2):
         for v in (2**63 - 1, 2**63, 2**64 - 1, 2**32, 2**31):
             out.append(("intsubst", b[:i.start] + gen.head(i.major, v, 8) + b[i.hend:]))
             out.append(("intsubst", b[:i.start] + gen.head(1 - i.major, v, 8) + b[i.hend:]))
+    # a tag in front of the whole item: the self-described tag 55799 (d9 d9 f7, and at the 4-byte width), another registered one, a small one
+    for t, w in ((55799, None), (55799, 4), (rng.choice([0, 1, 24, 32, 55800]), None)):
+        out.append(("tagged", gen.head(6, t, w) + b))
     # flip one random bit / append a byte
     p = rng.randrange(len(b))
     out.append(("bitflip", b[:p] + bytes([b[p] ^ (1 << rng.randrange(8))]) + b[p + 1:]))
